@@ -159,7 +159,7 @@ def cases(tier, seed):
                "gap": rnd.choice([0.0, 0.3, 2.0]), "one_slow": i % 2 == 0}
 
 
-def make_frame(gen, rnd, w, combo, obs, kinds=None):
+def make_frame(gen, rnd, w, combo, obs, kinds=None, big=False):
     """One console->client frame concerning some entities; mutates the console state so
     that error-text requests are answered consistently."""
     con = w.console
@@ -197,6 +197,11 @@ def make_frame(gen, rnd, w, combo, obs, kinds=None):
         return con.f_std(0xC0, R.c0(0x23, st, [R.b5_ac_status_record(r, st) for r in recs]))
     if kind == "zone":
         ids = rnd.sample(zone_ids + [rnd.choice([14, 15])], rnd.randint(1, len(zone_ids) + 1))
+        if big:
+            # one long frame (well over a kilobyte of records): the zones reported over and
+            # over, the last record of each counts
+            ids = [rnd.choice(zone_ids) for _ in range(rnd.randint(180, 260))]
+            obs["frames_longer_than_1k"] = obs.get("frames_longer_than_1k", 0) + 1
         recs = [rand_zone(gen, rnd, z) for z in ids]
         for rec in recs:   # the console's own state follows what it reports
             for z in inst["zones"]:
@@ -480,6 +485,8 @@ def run_case(case):
             combo = case["combos"][i % len(case["combos"])] if case["combos"] else None
             if combo is None and rnd.random() < 0.25:
                 raw = one_field_frame(gen, rnd, w, obs)
+            elif combo is None and rnd.random() < 0.04 and w.inst["zones"]:
+                raw = make_frame(gen, rnd, w, None, obs, kinds=["zone"], big=True)
             else:
                 raw = make_frame(gen, rnd, w, combo, obs)
             if not await w.inject(raw):
@@ -488,6 +495,14 @@ def run_case(case):
             snap = H.snapshot(w.at)
             dd = RM.diff(w.model.expected(), snap)
             obs["frames_compared"] = obs.get("frames_compared", 0) + 1
+            if len(net.conns) != 1 and not dd:
+                # the getters agree only because the client dropped the frame, reset the link
+                # and asked again: the report itself was never read
+                viol.append({"mechanism": "status-frame-dropped-and-link-reset:"
+                             f"at{gen}", "detail": {"frame": raw, "frame_index": i,
+                                                     "length": len(raw),
+                                                     "connections": len(net.conns)}})
+                break
             sample.setdefault("frame", raw)
             for path, ev, gv in dd[:3]:
                 attr = path.split(".")[-1]
